@@ -66,6 +66,45 @@ CHECKS.update({
         design_ref="6/C17"),
 })
 
+CHECKS.update({
+    "C08": dict(
+        text="Lean: evalPyCore_iff (the branchy _evaluate_python equals the rule: gates pass, the tag pair denotes a version "
+             "range w, and w & requires_python is not reported empty), compatible_of_exists (a version admitted by "
+             "requires_python inside w forces acceptance: no false rejection, via C01/C05), exists_of_compatible (dense "
+             "line: an accepted wheel has a common version), score_shape. The model (Model/Tags.lean, string slicing "
+             "included) is compared with EnvSpec._evaluate_python on the complete python x abi tag universe for majors 2-3 / "
+             "minors 0-20 under every implementation setting and 16 (quick) / 120 (thorough) requires_python shapes; an "
+             "independent PEP 425/3149/703 rule oracle decides each case on the real code. The reading of `==X.Y.*` as "
+             "`major.minor = X.Y` is the wildcard lemma (differentially checked, proof pending).",
+        technique="Lean 4 proof (rule equivalence + soundness via the interval algebra) + exhaustive tag-universe correspondence",
+        design_ref="6/C08"),
+    "C09": dict(
+        text="Lean: membership characterisation of compatible_tags for manylinux (every K from the arch floor to the target "
+             "minor plus the legacy alias of K, linux_<arch>), musllinux (1<=K<=minor), macOS arm64 / x86_64 (10.x and >=11) "
+             "and Windows, for EVERY minor/major (induction over the descending loops), and strict newest-first order of the "
+             "manylinux list with each legacy alias directly after its PEP 600 twin. The model is compared with "
+             "Platform.compatible_tags on the whole OS x arch grid (exhaustive); an independent rule oracle and packaging.tags "
+             "(probes stubbed) decide each case on the real code.",
+        technique="Lean 4 proof by induction over the generation loops + exhaustive grid correspondence",
+        design_ref="6/C09"),
+    "C16": dict(
+        text="Lean: widen_keeps (on a dense version line a wider requires_python keeps every accepted wheel; via C01/C05), "
+             "and_isEmpty_comm (the emptiness test is operand-order independent, structurally), compare_refl, "
+             "compare_incompatible_symm, compare_not_higher_both, manylinux_nested (LOWER_OR_EQUAL targets have nested tag sets). "
+             "The model of EnvSpec.compare/compatibility is compared with the real code on all ordered pairs of a 60-spec "
+             "(quick) / 250-spec grid; the laws, the nestedness and the widening claim are evaluated on the real objects.",
+        technique="Lean 4 proof + pairwise grid correspondence",
+        design_ref="6/C16"),
+    "C18": dict(
+        text="Lean (character level): wheel_roundtrip - for every name of 5 or 6 dash-free components + `.whl`, parse_wheel_tags "
+             "returns exactly the python/abi/platform fields split on `.`, the build tag skipped; bad_extension, bad_part_count; "
+             "the documented platform aliases. Platform.parse(str(p)) == p for every X_Y is decided differentially "
+             "(all X,Y in 0..99 in the thorough tier) together with agreement with packaging.utils.parse_wheel_filename on "
+             "generated names.",
+        technique="Lean 4 proof on character lists + differential testing against packaging",
+        design_ref="6/C18"),
+})
+
 ALL = [f"C{n:02d}" for n in range(1, 20)]
 PENDING_REASON = "check under construction in this round; not claimed yet"
 
